@@ -248,3 +248,9 @@ Definition set_cols (s : screen) (ob : list Z) (mk : list bool) : screen :=
 (* ---- Screen.__init__, the two statement runs that decide the observation mask ---- *)
 Definition np_eq_name (a : list name) (x : name) : list bool := map (fun y => name_eqb y x) a.      (* a == x, a a string array *)
 Definition np_eq_bool (a : list bool) (b : bool) : list bool := map (fun y => Bool.eqb y b) a.      (* a == b, a a bool array *)
+
+(* ==== per-plate reading of the reveal guards (vocabulary of Proofs/C12PerPlate.v) ====
+   screen.observations[screen.plate_ids == pid]: the stored values of ONE plate.  The code's guards look at the
+   union of all selected plates (revealed_values); the property speaks of "plates whose stored values are all zero". *)
+Definition plate_values (s : screen) (pid : Z) : list Z :=
+  map r_obs (select (map (fun p => p =? pid) (s_pids s)) (s_rows s)).
